@@ -79,7 +79,7 @@ def decode(payload, rf_channel):
             "rest": ble_bytes(bits[n + 24:])}
 
 
-def encode(mac, advdata, rf_channel, header=0x42, length=None, crc_xor=0, pad_to=32):
+def encode(mac, advdata, rf_channel, header=0x42, length=None, crc_xor=0, pad_to=32, noise=None):
     """an advertising PDU as the 32 bytes an nRF24 tuned to rf_channel would have to receive"""
     ch = RF_TO_BLE[rf_channel]
     body = bytes(mac) + bytes(advdata)
@@ -89,7 +89,8 @@ def encode(mac, advdata, rf_channel, header=0x42, length=None, crc_xor=0, pad_to
     if crc_xor:
         c = [b ^ (crc_xor >> (23 - k) & 1) for k, b in enumerate(c)]
     bits = bits + c
-    bits += [0] * (8 * pad_to - len(bits))          # what follows the CRC on air is noise; zeros here (before whitening)
+    # what follows the CRC on air is noise: zeros (before whitening) or the caller's bits
+    bits += [(noise.getrandbits(1) if noise else 0) for _ in range(8 * pad_to - len(bits))]
     return nrf_bytes(whiten(bits, ch))[:pad_to]
 
 
